@@ -196,7 +196,10 @@ def compare(res, tmpl, pyargs, hargs, keys, bytes_mode, line, rq):
             return
         if py[0] == "VALUEERR":
             m = re.match(r"unsupported format character '(.*)' \((0x[0-9a-f]+)\) at index (\d+)", py[1], re.S)
-            if m:
+            if m and not bytes_mode and m.group(1) == "b" and not (typ.startswith("UnsupportedFormatChar") and int(m.group(3)) == index):
+                # '%b' passed the shared specifier parser, the crate's error (if any) comes from further right
+                res.add("percent-b-accepted-in-text-template", detail, wit)
+            elif m:
                 if not typ.startswith("UnsupportedFormatChar") or int(m.group(3)) != index:
                     res.add("unlisted:error-kind-or-index-differs", detail, wit)
             elif "incomplete format key" in py[1]:
